@@ -755,4 +755,92 @@ theorem C13_grad_entry (N p : Nat) (hp : p < N) (v : Nat → ℝ) :
     ∑ q ∈ range N, v q * (if q = p then 1 else 0) = v p := by
   simp [Finset.sum_ite_eq', hp]
 
+/-! ## the constructor leaves the caller's filter object alone -/
+
+/-- the constructor on the store = `construct` on the caller's filter, result in a NEW cell -/
+theorem constructHeap_eq {τ : Type} (lt : τ → τ → Bool) (dflt : τ) (h : Heap ℝ) (p : Nat)
+    (times : List τ) :
+    constructHeap lt dflt h p times =
+      match h[p]? with
+      | none => .error .indexError
+      | some f =>
+        match construct lt dflt f times with
+        | .error e => .error e
+        | .ok (own, st) => .ok (h ++ [own], h.length, st) := by
+  unfold constructHeap
+  cases hp : h[p]? with
+  | none => rfl
+  | some f =>
+    simp only [construct]
+    by_cases hl : times.length ≠ f.T
+    · simp [hl]
+    · simp only [hl, if_false]
+      unfold sortInPlace
+      have hq : (h ++ [f])[h.length]? = some f := by simp
+      rw [hq]
+      have hset : ∀ g : AnyFilt ℝ, (h ++ [f]).set h.length g = h ++ [g] := by
+        intro g
+        rw [List.set_append_right _ _ (Nat.le_refl _)]
+        simp
+      cases hs : f.sortTimes (argsortBy lt times dflt) with
+      | error e => simp [hs]
+      | ok g => simp [hs, hset]
+
+/-- `__init__` does not change any object that existed before the call — in particular not the filter
+    handed in — and its own filter is what `construct` (`C13_value_times`) describes -/
+theorem C13_constructor_keeps_arguments {τ : Type} (lt : τ → τ → Bool) (dflt : τ) (h h' : Heap ℝ)
+    (p q : Nat) (times : List τ) (st : Nat → τ)
+    (hc : constructHeap lt dflt h p times = .ok (h', q, st)) :
+    q = h.length ∧ (∀ i, i < h.length → h'[i]? = h[i]?) ∧
+    ∃ f own, h[p]? = some f ∧ construct lt dflt f times = .ok (own, st) ∧ h'[q]? = some own := by
+  rw [constructHeap_eq] at hc
+  cases hp : h[p]? with
+  | none => rw [hp] at hc; cases hc
+  | some f =>
+    simp only [hp] at hc
+    cases hcon : construct lt dflt f times with
+    | error e => simp only [hcon] at hc; cases hc
+    | ok r =>
+      obtain ⟨own, st'⟩ := r
+      simp only [hcon, Except.ok.injEq, Prod.mk.injEq] at hc
+      obtain ⟨rfl, rfl, rfl⟩ := hc
+      refine ⟨rfl, fun i hi => List.getElem?_append_left hi, f, own, rfl, hcon, by simp⟩
+
+/-- any number of posteriors can be built from the same filter object: the second constructor call
+    with the same arguments succeeds and its own filter and sorted times equal the first call's -/
+theorem C13_constructor_repeatable {τ : Type} (lt : τ → τ → Bool) (dflt : τ) (h h' : Heap ℝ)
+    (p q : Nat) (times : List τ) (st : Nat → τ)
+    (hc : constructHeap lt dflt h p times = .ok (h', q, st)) :
+    ∃ h'' own, constructHeap lt dflt h' p times = .ok (h'', h'.length, st) ∧
+      h'[q]? = some own ∧ h''[h'.length]? = some own := by
+  obtain ⟨hq, hold, f, own, hp, hcon, hown⟩ :=
+    C13_constructor_keeps_arguments lt dflt h h' p q times st hc
+  have hplt : p < h.length := by
+    rcases Nat.lt_or_ge p h.length with hlt | hge
+    · exact hlt
+    · rw [List.getElem?_eq_none hge] at hp; cases hp
+  have hp' : h'[p]? = some f := by rw [hold p hplt, hp]
+  refine ⟨h' ++ [own], own, ?_, hown, by simp⟩
+  rw [constructHeap_eq, hp']
+  simp only [hcon]
+
+/-- why the order of the two statements matters: with "sort the caller's object, then copy" (NOT chi)
+    a second posterior built from the same filter and the same unsorted times gets its measurements
+    permuted twice.  One measured individual, one observable, times `[1, 0]`, measurement `j` at
+    position `j`. -/
+theorem C13_constructor_alias_counterexample :
+    let F : Filt ℝ := ⟨.gauss, 1, 1, 2, fun _ _ j => some (j : ℝ)⟩
+    let lt : Nat → Nat → Bool := fun a b => decide (a < b)
+    ∃ h1 q1 st1 h2 q2 st2 F1 F2,
+      constructHeapAliased lt 0 [AnyFilt.simple F] 0 [1, 0] = .ok (h1, q1, st1) ∧
+      constructHeapAliased lt 0 h1 0 [1, 0] = .ok (h2, q2, st2) ∧
+      h1[q1]? = some (.simple F1) ∧ h2[q2]? = some (.simple F2) ∧
+      F1.obs 0 0 0 = some 1 ∧ F2.obs 0 0 0 = some 0 := by
+  intro F lt
+  have hord : argsortBy lt [1, 0] 0 = [1, 0] := by
+    simp [lt, argsortBy, List.mergeSort, List.range, List.range.loop,
+      List.MergeSort.Internal.splitInTwo]
+  simp [constructHeapAliased, sortInPlace, hord, AnyFilt.sortTimes, AnyFilt.T, Filt.sortTimes, hasDup,
+    Except.map, F]
+
 end ChiModel
